@@ -22,6 +22,7 @@ func init() {
 		},
 		Run: runC21,
 		Controls: []Control{
+			{Name: "reserved-octet-skipped-before-the-emptiness-test", File: "protocols/bgp/packet/mp_reach_nlri.go", Old: "\tif budget == 0 {\n\t\treturn n, nil\n\t}\n\n\tvariable = variable[1+nextHopLength:] // 1 <- RESERVED field\n", New: "\tvariable = variable[1+nextHopLength:] // 1 <- RESERVED field\n\tif budget == 0 {\n\t\treturn n, nil\n\t}\n", Expect: "decoder-no-panic"},
 			{Name: "addpath-capability-for-unconfigured-family", File: "protocols/bgp/server/fsm_open_sent.go", Old: "\t\tf := s.fsm.addressFamily(addPathCapTuple.AFI, addPathCapTuple.SAFI)\n\t\tif f == nil {\n\t\t\tcontinue\n\t\t}\n", New: "\t\tf := s.fsm.addressFamily(addPathCapTuple.AFI, addPathCapTuple.SAFI)\n", Expect: "family-lookup-result-guarded"},
 			{Name: "framing-lower-bound-dropped", File: "protocols/bgp/server/fsm.go", Old: "\tif l < packet.MinLen || l > packet.MaxLen {", New: "\tif l > packet.MaxLen {", Expect: "framing-bounds"},
 			{Name: "unknown-attribute-asserts-bytes", File: "protocols/bgp/server/fsm_address_family.go", Old: "\tvalue, ok := attr.Value.([]byte)\n\tif !ok {\n\t\treturn nil\n\t}\n", New: "\tvalue := attr.Value.([]byte)\n", Expect: "union-type-agreement"},
@@ -75,6 +76,16 @@ func bodyTable(c *core.Ctx) map[string]string {
 
 func runC21(c *core.Ctx) {
 	nilableFamilyGuarded(c, "family-lookup-result-guarded", 6)
+	// the message decoders behind recvMsg: the same panic-capable-operation scope C16 decides (a panic in the decoder is
+	// the crash this property excludes), keyed separately so that C21 reports it on its own
+	if root := c.MustFunc("protocols/bgp/packet.Decode"); root != nil {
+		var unions []*unionTable
+		for _, u := range bgpUnions {
+			unions = append(unions, buildUnionTable(c, u))
+		}
+		nf, _ := decoderScope(c, "decoder-", []*core.Fn{root}, bgpDecodeScope, unions)
+		c.Check(nf >= 40, "decoder-scope", "functions reachable from packet.Decode", root.Decl.Pos(), "fewer functions reachable from the decoder entry than confirmed by hand (40)")
+	}
 	p := c.P
 	const pkt = "protocols/bgp/packet"
 	// (1) framing ----------------------------------------------------------------------------------
